@@ -30,7 +30,7 @@ def run(ctx):
     for n in lens:
         for kind in ('lkp', 'gstr', 'tname', 'tnamep'):
             for gaps in (False, True):
-                w = World(rnd)
+                w = World(rnd, ts='any')
                 g = gen.ProgGen(w, rnd)
                 txt = gen.pos_text(rnd, n, n)
                 if kind == 'lkp':
@@ -53,7 +53,7 @@ def run(ctx):
     for name in names:
         for nl in nl_choices:
             for rep in range(1 if ctx.quick else 6):
-                w = World(rnd)
+                w = World(rnd, ts='any')
                 g = gen.ProgGen(w, rnd)
                 stream = [w.sys(name, 1, 1)]
                 for j in range(nl):
@@ -68,7 +68,7 @@ def run(ctx):
                 cases.append(('%s_%d_%d' % (name, nl, rep), w, stream))
     # nested operations: inner syscall's lookups are part of the outer window too
     for i in range(100 if ctx.quick else 2000):
-        w = World(rnd)
+        w = World(rnd, ts='any')
         g = gen.ProgGen(w, rnd, noise=0.0, composites=False, usestr=False)
         progs = [g.program(t, rnd.randrange(1, 4)) for t in (1, 2)]
         cases.append(('mix%d' % i, w, gen.interleave(rnd, progs)))
